@@ -17,26 +17,29 @@ type useSpec struct {
 	text   string // as sent after "USE "
 	norm   string // keyspace as the backend names it (unquoted, case-folded); "" = does not exist
 	exists bool
+	busy   bool // every node answers the USE with OVERLOADED: it fails, for whatever reason the proxy gives
 }
 
 var c07Uses = []useSpec{
-	{"ks1", "ks1", true},
-	{"KS1", "ks1", true},
-	{"Ks2", "ks2", true},
-	{`"ks2"`, "ks2", true},
-	{`"Ks3"`, "Ks3", true},
-	{"ks3", "", false}, // only the quoted mixed-case one exists
-	{"nosuch", "", false},
-	{`"NoSuch"`, "", false},
-	{"ks4", "ks4", true},
+	{"ks1", "ks1", true, false},
+	{"KS1", "ks1", true, false},
+	{"Ks2", "ks2", true, false},
+	{`"ks2"`, "ks2", true, false},
+	{`"Ks3"`, "Ks3", true, false},
+	{"ks3", "", false, false}, // only the quoted mixed-case one exists
+	{"nosuch", "", false, false},
+	{`"NoSuch"`, "", false, false},
+	{"ks4", "ks4", true, false},
 	// pairs that differ only in case-sensitivity: two different keyspaces, or one that does not exist
-	{`"KS4"`, "KS4", true},
-	{`"KS1"`, "", false},
+	{`"KS4"`, "KS4", true, false},
+	{`"KS1"`, "", false, false},
 	// what may follow the name: a terminator, comments
-	{"ks2;", "ks2", true},
-	{"ks1 /* switch */", "ks1", true},
-	{"ks4 -- back again", "ks4", true},
-	{"ks2 /* a */ ;", "ks2", true},
+	{"ks2;", "ks2", true, false},
+	{"ks1 /* switch */", "ks1", true, false},
+	{"ks4 -- back again", "ks4", true, false},
+	{"ks2 /* a */ ;", "ks2", true, false},
+	// a keyspace the nodes refuse to switch to for the time being (they shed load)
+	{"ks_busy", "", false, true},
 }
 
 // C07 — requests run in the client's current keyspace, protocol version and compression.
@@ -61,6 +64,7 @@ func c07(e *Env) {
 	w := f.w
 	for _, n := range w.Nodes {
 		n.Keyspaces = map[string]bool{"ks1": true, "ks2": true, "Ks3": true, "ks4": true, "KS4": true, "system": true}
+		n.BusyKeyspaces = map[string]bool{"ks_busy": true}
 	}
 	refuser := -1
 	if len(w.Nodes) > 1 && c.Choose("refuser?", 4) == 3 {
@@ -178,7 +182,7 @@ func c07(e *Env) {
 				w.Violate("c07-use", "use-of-existing-keyspace-failed", fmt.Sprintf("%s: USE %s failed with %v although every backend has the keyspace", req.Client, u.text, m))
 				return
 			}
-			if !u.exists && !strings.Contains(m.GetErrorMessage(), "does not exist") {
+			if !u.exists && !u.busy && !strings.Contains(m.GetErrorMessage(), "does not exist") {
 				w.Violate("c07-use", "use-error-not-the-backends", fmt.Sprintf("%s: USE %s failed with %q; the backend's error is \"Keyspace ... does not exist\"", req.Client, u.text, m.GetErrorMessage()))
 				return
 			}
